@@ -18,10 +18,10 @@ use std::time::{Duration, Instant};
 use tokio::io::{AsyncRead, AsyncReadExt, AsyncWrite, AsyncWriteExt};
 use tokio::net::{TcpListener, TcpStream, UdpSocket, UnixStream};
 
-const RULE: &str = "one case = one conversation through a real client/server pair on loopback: a scripted local client enters through a fixed TCP remote, a Unix-socket remote, SOCKS4, SOCKS4a, SOCKS5 (IPv4 / IPv6 / domain) or HTTP CONNECT and talks to a scripted target \
+const RULE: &str = "one case = one conversation through a real client/server pair on loopback: a scripted local client enters through a fixed TCP remote, a Unix-socket remote, SOCKS4, SOCKS4a, SOCKS5 (IPv4 / IPv6 / domain) or HTTP CONNECT (the SOCKS and HTTP front-ends on a TCP port and on a Unix-domain socket) and talks to a scripted target \
 (request/response, target-first half-close, simultaneous transfers of several windows, target closes at once, target refuses, target aborts mid-transfer), payloads position-addressed, write chunking and pauses seeded, 1-16 conversations concurrently; \
-or LocalHalfCloseThenClose / LocalClosesWhileTargetStreams with a 48 MiB reply of which the client reads a prefix before closing) or one UDP exchange: 1-8 local sockets (plain UDP remote and SOCKS5 UDP ASSOCIATE mixed; each SOCKS5 association addresses two different targets datagram by datagram), payloads 0..60000 bytes, target answering 0-3 replies per request. \
-Oracle: each side receives exactly the other side's byte stream (prefix always, complete after a half-close), half-close propagates while the other direction continues, the local connection is closed when the target closes/refuses/aborts; \
+or LocalHalfCloseThenClose / LocalClosesWhileTargetStreams with a 48 MiB reply of which the client reads a prefix before closing; or HalfCloseThenLiveReply: the client half-closes, the target answers 1-70000 bytes and keeps its connection open until the harness confirms that the client has them) or one UDP exchange: 1-8 local sockets (plain UDP remote and SOCKS5 UDP ASSOCIATE mixed; each SOCKS5 association addresses two different targets datagram by datagram), payloads 0..60000 bytes, target answering 0-3 replies per request. \
+Oracle: each side receives exactly the other side's byte stream (prefix always, complete after a half-close), half-close propagates while the other direction continues, the local connection is closed when the target closes/refuses/aborts, an answer sent after the client's half-close arrives within 10 s while the target still holds its connection open (violation only with an idle-process witness); \
 every UDP reply carries the tag of the socket that receives it, comes from the address that socket sent to, is not duplicated, and (SOCKS5) parses with a reference RFC 1928 parser to the unmodified payload. \
 A hang is a violation only with a process-quiescence witness. Non-trivial = the conversation reached the target or the refusal path was exercised";
 
@@ -35,6 +35,10 @@ enum Entry {
     Socks5V6,
     Socks5Domain,
     HttpConnect,
+    /// the SOCKS front-end on a Unix-domain socket (`[unix:PATH]:socks`)
+    UnixSocks5,
+    /// the HTTP proxy front-end on a Unix-domain socket (`[unix:PATH]:http`)
+    UnixHttp,
 }
 
 #[derive(Clone, Copy, Debug, PartialEq, Eq, Hash)]
@@ -52,6 +56,9 @@ enum Kind {
     /// like LocalHalfCloseThenClose, but the client stops reading for a while before it closes (a paused, then cancelled download):
     /// every buffer on the way fills up and the server's writer runs out of credit before the close
     LocalHalfCloseStallThenClose,
+    /// the local client sends its request and half-closes; the target answers and KEEPS its connection open until the
+    /// harness tells it that the local client has the whole answer (a direct connection delivers the answer at once)
+    HalfCloseThenLiveReply,
 }
 
 #[derive(Clone, Debug)]
@@ -79,12 +86,22 @@ struct TargetObs {
     sent: usize,
     send_end: Option<String>,
     quiescent_when_stuck: bool,
+    /// HalfCloseThenLiveReply: the local client confirmed the whole reply while the target still held its connection open
+    ack_seen: bool,
 }
 
 struct Targets {
     plans: Mutex<HashMap<u64, Conv>>,
     obs: Mutex<HashMap<u64, TargetObs>>,
     seed: u64,
+    /// HalfCloseThenLiveReply: out-of-band confirmation from the local client to the target
+    acks: Mutex<HashMap<u64, Arc<tokio::sync::Notify>>>,
+}
+
+impl Targets {
+    fn ack(&self, id: u64) -> Arc<tokio::sync::Notify> {
+        self.acks.lock().unwrap().entry(id).or_default().clone()
+    }
 }
 
 fn key_l(seed: u64, id: u64) -> u64 {
@@ -171,6 +188,14 @@ async fn target_conn(mut s: TcpStream, t: Arc<Targets>) {
             drop(s);
         }
         Kind::TargetRefuses => {}
+        Kind::HalfCloseThenLiveReply => {
+            let (g, bad, eof, err) = recv_all(&mut s, kl).await;
+            obs = TargetObs { got: g, bad_at: bad, eof, err, ..TargetObs::default() };
+            send_chunks(&mut s, kt, c.b, c.chunk, 0).await.ok();
+            // keep the connection open until the local client has the whole reply (bounded)
+            obs.ack_seen = tokio::time::timeout(Duration::from_secs(20), t.ack(id).notified()).await.is_ok();
+            s.shutdown().await.ok();
+        }
         Kind::LocalHalfCloseThenClose | Kind::LocalClosesWhileTargetStreams | Kind::LocalHalfCloseStallThenClose => {
             let (mut r, mut w) = s.split();
             let sent = std::sync::atomic::AtomicUsize::new(0);
@@ -208,7 +233,7 @@ async fn target_conn(mut s: TcpStream, t: Arc<Targets>) {
                 }
             };
             match res {
-                Some((how, (g, bad, eof, err))) => obs = TargetObs { got: g, bad_at: bad, eof, err, sent: sent.load(std::sync::atomic::Ordering::Relaxed), send_end: Some(how), quiescent_when_stuck: false },
+                Some((how, (g, bad, eof, err))) => obs = TargetObs { got: g, bad_at: bad, eof, err, sent: sent.load(std::sync::atomic::Ordering::Relaxed), send_end: Some(how), quiescent_when_stuck: false, ack_seen: false },
                 None => {
                     let now = sent.load(std::sync::atomic::Ordering::Relaxed);
                     obs = TargetObs { sent: now, send_end: None, quiescent_when_stuck: at_15s == Some(now), ..TargetObs::default() };
@@ -231,6 +256,8 @@ struct Env {
     fixed_port: u16,
     fixed_refuse_port: u16,
     unix_path: String,
+    unix_socks_path: String,
+    unix_http_path: String,
     socks_port: u16,
     http_port: u16,
     udp_port: u16,
@@ -273,8 +300,12 @@ async fn enter(env: &Env, c: &Conv) -> Result<Box<dyn Duplex>, String> {
             }
             Ok(Box::new(s))
         }
-        Entry::Socks5V4 | Entry::Socks5V6 | Entry::Socks5Domain => {
-            let mut s = TcpStream::connect(("127.0.0.1", env.socks_port)).await.map_err(|x| e("connect socks", x))?;
+        Entry::Socks5V4 | Entry::Socks5V6 | Entry::Socks5Domain | Entry::UnixSocks5 => {
+            let mut s: Box<dyn Duplex> = if c.entry == Entry::UnixSocks5 {
+                Box::new(UnixStream::connect(&env.unix_socks_path).await.map_err(|x| e("connect unix socks", x))?)
+            } else {
+                Box::new(TcpStream::connect(("127.0.0.1", env.socks_port)).await.map_err(|x| e("connect socks", x))?)
+            };
             if !c.optimistic {
                 s.write_all(&[5, 1, 0]).await.map_err(|x| e("socks5 greeting", x))?;
                 let mut m = [0u8; 2];
@@ -285,7 +316,7 @@ async fn enter(env: &Env, c: &Conv) -> Result<Box<dyn Duplex>, String> {
             }
             let mut req = vec![5u8, 1, 0];
             match c.entry {
-                Entry::Socks5V4 => req.extend([1, 127, 0, 0, 1]),
+                Entry::Socks5V4 | Entry::UnixSocks5 => req.extend([1, 127, 0, 0, 1]),
                 Entry::Socks5V6 => {
                     req.push(4);
                     req.extend(std::net::Ipv6Addr::LOCALHOST.octets());
@@ -315,10 +346,14 @@ async fn enter(env: &Env, c: &Conv) -> Result<Box<dyn Duplex>, String> {
             if rep[0] != 5 || rep[1] != 0 || rep[2] != 0 || rep[3] != 1 {
                 return Err(format!("socks5 reply {rep:?}"));
             }
-            Ok(Box::new(s))
+            Ok(s)
         }
-        Entry::HttpConnect => {
-            let mut s = TcpStream::connect(("127.0.0.1", env.http_port)).await.map_err(|x| e("connect http", x))?;
+        Entry::HttpConnect | Entry::UnixHttp => {
+            let mut s: Box<dyn Duplex> = if c.entry == Entry::UnixHttp {
+                Box::new(UnixStream::connect(&env.unix_http_path).await.map_err(|x| e("connect unix http", x))?)
+            } else {
+                Box::new(TcpStream::connect(("127.0.0.1", env.http_port)).await.map_err(|x| e("connect http", x))?)
+            };
             let req = format!("CONNECT 127.0.0.1:{tport} HTTP/1.1\r\nHost: 127.0.0.1:{tport}\r\n\r\n");
             s.write_all(req.as_bytes()).await.map_err(|x| e("http connect", x))?;
             let mut head = Vec::new();
@@ -336,7 +371,7 @@ async fn enter(env: &Env, c: &Conv) -> Result<Box<dyn Duplex>, String> {
             if !head.starts_with(b"HTTP/1.1 200") {
                 return Err(format!("http reply {:?}", String::from_utf8_lossy(&head[..head.len().min(40)])));
             }
-            Ok(Box::new(s))
+            Ok(s)
         }
     }
 }
@@ -350,9 +385,12 @@ struct LocalObs {
     eof: bool,
     err: Option<String>,
     write_err: Option<String>,
+    /// HalfCloseThenLiveReply: the whole reply had not arrived 10 s after the half-close; Some(process quiescent at that moment)
+    live_reply_withheld: Option<bool>,
+    live_reply_ms: u64,
 }
 
-async fn local_side(env: Arc<Env>, seed: u64, c: Conv) -> LocalObs {
+async fn local_side(env: Arc<Env>, seed: u64, c: Conv, targets: Option<Arc<Targets>>) -> LocalObs {
     let mut o = LocalObs::default();
     let mut s = match enter(&env, &c).await {
         Ok(s) => s,
@@ -434,6 +472,52 @@ async fn local_side(env: Arc<Env>, seed: u64, c: Conv) -> LocalObs {
                 tokio::time::sleep(Duration::from_millis(600)).await;
             }
             drop(s);
+        }
+        Kind::HalfCloseThenLiveReply => {
+            s.write_all(idb).await.ok();
+            if let Err(e) = send_chunks(&mut s, kl, c.a, c.chunk, c.pause_every).await {
+                o.write_err = Some(e.kind().to_string());
+            }
+            s.shutdown().await.ok();
+            let t0 = Instant::now();
+            // the whole reply must arrive while the target still holds its connection open
+            let mut buf = vec![0u8; 16384];
+            let deadline = tokio::time::Instant::now() + Duration::from_secs(10);
+            while o.got < c.b {
+                match tokio::time::timeout_at(deadline, s.read(&mut buf)).await {
+                    Err(_) => {
+                        let q = tokio::task::spawn_blocking(|| net::process_quiescent(8, Duration::from_millis(60))).await.unwrap_or(false);
+                        o.live_reply_withheld = Some(q);
+                        break;
+                    }
+                    Ok(Ok(0)) => {
+                        o.eof = true;
+                        break;
+                    }
+                    Ok(Ok(n)) => {
+                        if o.bad_at.is_none() {
+                            o.bad_at = prf_mismatch(kt, o.got as u64, &buf[..n]).map(|j| o.got + j);
+                        }
+                        o.got += n;
+                    }
+                    Ok(Err(e)) => {
+                        o.err = Some(e.kind().to_string());
+                        break;
+                    }
+                }
+            }
+            o.live_reply_ms = t0.elapsed().as_millis() as u64;
+            if let Some(t) = &targets {
+                t.ack(c.id).notify_one();
+            }
+            if !o.eof && o.err.is_none() {
+                // the rest (nothing, if the reply was complete) up to the target's close
+                let before = o.got;
+                let r = recv_all(&mut s, mix(kt, 0xDEAD)).await;
+                o.got = before + r.0;
+                o.eof = r.2;
+                o.err = r.3;
+            }
         }
         Kind::Simultaneous => {
             s.write_all(idb).await.ok();
@@ -753,7 +837,7 @@ async fn run_once(seed: u64, convs: Vec<Conv>, udp_clients: Vec<(u64, bool, usiz
         }
     };
     let target_port = tl4.local_addr().expect("addr").port();
-    let targets = Arc::new(Targets { plans: Mutex::new(convs.iter().map(|c| (c.id, c.clone())).collect()), obs: Mutex::new(HashMap::new()), seed });
+    let targets = Arc::new(Targets { plans: Mutex::new(convs.iter().map(|c| (c.id, c.clone())).collect()), obs: Mutex::new(HashMap::new()), seed, acks: Mutex::new(HashMap::new()) });
     let t4 = tokio::spawn(target_listener(tl4, targets.clone()));
     let t6 = tokio::spawn(target_listener(tl6, targets.clone()));
     let ut = UdpSocket::bind("127.0.0.1:0").await.expect("bind");
@@ -766,6 +850,8 @@ async fn run_once(seed: u64, convs: Vec<Conv>, udp_clients: Vec<(u64, bool, usiz
         fixed_port: net::free_tcp_port(false),
         fixed_refuse_port: net::free_tcp_port(false),
         unix_path: dir.join(format!("c01-{seed:x}.sock")).to_string_lossy().to_string(),
+        unix_socks_path: dir.join(format!("c01-{seed:x}-socks.sock")).to_string_lossy().to_string(),
+        unix_http_path: dir.join(format!("c01-{seed:x}-http.sock")).to_string_lossy().to_string(),
         socks_port: net::free_tcp_port(false),
         http_port: net::free_tcp_port(false),
         udp_port: net::free_udp_port(),
@@ -782,6 +868,8 @@ async fn run_once(seed: u64, convs: Vec<Conv>, udp_clients: Vec<(u64, bool, usiz
             Remote::from_str(&format!("[unix:{}]:127.0.0.1:{}", env.unix_path, env.target_port)).expect("remote"),
             Remote::from_str(&format!("127.0.0.1:{}:socks", env.socks_port)).expect("remote"),
             Remote::from_str(&format!("127.0.0.1:{}:http", env.http_port)).expect("remote"),
+            Remote::from_str(&format!("[unix:{}]:socks", env.unix_socks_path)).expect("remote"),
+            Remote::from_str(&format!("[unix:{}]:http", env.unix_http_path)).expect("remote"),
             Remote::from_str(&format!("127.0.0.1:{}:127.0.0.1:{}/udp", env.udp_port, env.udp_target_port)).expect("remote"),
         ],
         keepalive: OptionalDuration::NONE,
@@ -803,7 +891,7 @@ async fn run_once(seed: u64, convs: Vec<Conv>, udp_clients: Vec<(u64, bool, usiz
         if cl.is_finished() {
             break;
         }
-        if let Ok(o) = tokio::time::timeout(Duration::from_secs(2), local_side(env.clone(), seed, warm.clone())).await {
+        if let Ok(o) = tokio::time::timeout(Duration::from_secs(2), local_side(env.clone(), seed, warm.clone(), None)).await {
             if o.entered && o.got == 10 && o.eof {
                 ready = true;
                 break;
@@ -816,10 +904,10 @@ async fn run_once(seed: u64, convs: Vec<Conv>, udp_clients: Vec<(u64, bool, usiz
         let sem = Arc::new(tokio::sync::Semaphore::new(concurrency.max(1)));
         let mut hs = Vec::new();
         for c in convs {
-            let (env2, sem2) = (env.clone(), sem.clone());
+            let (env2, sem2, tg2) = (env.clone(), sem.clone(), targets.clone());
             hs.push((c.clone(), tokio::spawn(async move {
                 let _p = sem2.acquire_owned().await.ok();
-                tokio::time::timeout(Duration::from_secs(40), local_side(env2, seed, c)).await.ok()
+                tokio::time::timeout(Duration::from_secs(40), local_side(env2, seed, c, Some(tg2))).await.ok()
             })));
         }
         let mut us = Vec::new();
@@ -865,12 +953,12 @@ async fn run_once(seed: u64, convs: Vec<Conv>, udp_clients: Vec<(u64, bool, usiz
 }
 
 fn gen_convs(rng: &mut Rng64, n: usize, big: usize, base_id: u64) -> Vec<Conv> {
-    const ENTRIES: [Entry; 8] = [Entry::Fixed, Entry::Unix, Entry::Socks4, Entry::Socks4a, Entry::Socks5V4, Entry::Socks5V6, Entry::Socks5Domain, Entry::HttpConnect];
-    const KINDS: [Kind; 12] = [Kind::RequestResponse, Kind::RequestResponse, Kind::TargetFirstHalfClose, Kind::TargetFirstHalfClose, Kind::Simultaneous, Kind::Simultaneous, Kind::TargetClosesAtOnce, Kind::TargetRefuses, Kind::TargetAborts,
+    const ENTRIES: [Entry; 10] = [Entry::Fixed, Entry::Unix, Entry::Socks4, Entry::Socks4a, Entry::Socks5V4, Entry::Socks5V6, Entry::Socks5Domain, Entry::HttpConnect, Entry::UnixSocks5, Entry::UnixHttp];
+    const KINDS: [Kind; 14] = [Kind::HalfCloseThenLiveReply, Kind::HalfCloseThenLiveReply, Kind::RequestResponse, Kind::RequestResponse, Kind::TargetFirstHalfClose, Kind::TargetFirstHalfClose, Kind::Simultaneous, Kind::Simultaneous, Kind::TargetClosesAtOnce, Kind::TargetRefuses, Kind::TargetAborts,
         Kind::LocalHalfCloseThenClose, Kind::LocalClosesWhileTargetStreams, Kind::LocalHalfCloseStallThenClose];
     (0..n).map(|i| {
-        let entry = ENTRIES[(i + rng.below(8) as usize) % 8];
-        let mut kind = KINDS[rng.below(12) as usize];
+        let entry = ENTRIES[(i + rng.below(10) as usize) % 10];
+        let mut kind = KINDS[rng.below(14) as usize];
         let sizes = [0usize, 1, 2, 100, 8192, 8193, 70_000, 600_000];
         let (mut a, mut b) = (*rng.pick(&sizes), *rng.pick(&sizes));
         if i < big {
@@ -891,7 +979,11 @@ fn gen_convs(rng: &mut Rng64, n: usize, big: usize, base_id: u64) -> Vec<Conv> {
         if pause_every > 0 {
             chunk = chunk.max(most / (pause_every * 1500) + 1);
         }
-        let optimistic = matches!(entry, Entry::Socks5V4 | Entry::Socks5V6 | Entry::Socks5Domain) && rng.chance(1, 3);
+        if kind == Kind::HalfCloseThenLiveReply {
+            // an answer smaller and larger than any plausible intermediate buffer
+            b = *rng.pick(&[1usize, 100, 3000, 8191, 8192, 70_000]);
+        }
+        let optimistic = matches!(entry, Entry::Socks5V4 | Entry::Socks5V6 | Entry::Socks5Domain | Entry::UnixSocks5) && rng.chance(1, 3);
         Conv { id: base_id + i as u64, entry, kind, a, b, chunk, pause_every, optimistic }
     }).collect()
 }
@@ -963,6 +1055,32 @@ fn judge(st: &mut Stats, seed: u64, out: &RunOut) {
                         replay: replay(),
                     }),
                     None => st.inconclusive.push(format!("c01: {tag}: target still writing after 25 s but making progress")),
+                }
+            }
+            Kind::HalfCloseThenLiveReply => {
+                st.target("live_replies_after_local_half_close", 1);
+                let Some(to) = to else {
+                    st.violation(Violation { signature: format!("target-never-reached|{tag}"), detail: format!("the target never saw conversation {}", c.id), replay: replay() });
+                    continue;
+                };
+                if to.got != c.a || !to.eof || to.bad_at.is_some() {
+                    st.violation(Violation { signature: format!("local-to-target-incomplete|{tag}"), detail: format!("the target received {} of {} bytes, saw EOF: {} (error {:?}, wrong byte at {:?})", to.got, c.a, to.eof, to.err, to.bad_at), replay: replay() });
+                }
+                match lo.live_reply_withheld {
+                    Some(true) => st.violation(Violation {
+                        signature: format!("reply-withheld-after-local-half-close|{:?}", c.entry),
+                        detail: format!("the local client sent its request and half-closed; the target answered with {} bytes and kept its connection open; 10 s later the local client had {} of them and the process was idle (a direct connection delivers the answer at once, whether or not the target closes)", c.b, lo.got),
+                        replay: replay(),
+                    }),
+                    Some(false) => st.inconclusive.push(format!("c01: {tag}: reply incomplete after 10 s but the process was busy")),
+                    None => {
+                        if lo.got != c.b || !lo.eof {
+                            st.violation(Violation { signature: format!("target-to-local-incomplete|{tag}"), detail: format!("the local client received {} of {} bytes, saw EOF: {} (error {:?})", lo.got, c.b, lo.eof, lo.err), replay: replay() });
+                        }
+                        if to.ack_seen {
+                            st.count("replies_delivered_while_target_held_open", 1);
+                        }
+                    }
                 }
             }
             Kind::TargetClosesAtOnce | Kind::TargetRefuses | Kind::TargetAborts => {
